@@ -3,9 +3,10 @@
 (* equation, applying a function to both sides.                              *)
 (*                                                                            *)
 (* A vector equation is a sequence of terms <<coefficient, vector, side>>:    *)
-(* coefficient and vector are postfix programs of VecVal (so that the         *)
-(* harness builds exactly what the model means), side is "l" or "r".  The     *)
-(* "original expression" of the statement is                                  *)
+(* the coefficient is a sequence of monomials (its expanded form: x + y is    *)
+(* <<x, y>>), monomials and vector are postfix programs of VecVal (so that    *)
+(* the harness builds exactly what the model means), side is "l" or "r".      *)
+(* The "original expression" of the statement is                              *)
 (*      E = sum of the left terms - sum of the right terms.                   *)
 (* The unknown is vector leaf 1 (u); leaves 2, 3 are a, b; scalars x, y.      *)
 (* The behaviours of the machine are the equation shapes the property         *)
@@ -52,6 +53,9 @@ CoefProg == [
   my2  |-> << <<"int", -1>>, Y, <<"pow", 2>>, <<"muls", 0>> >>,
   zero |-> << <<"int", 0>> >> ]
 
+\* the expanded form of a coefficient: the monomials whose sum it is
+CoefParts(c) == IF c = "xpy" THEN << << X >>, << Y >> >> ELSE << CoefProg[c] >>
+
 VecProg == [
   u  |-> << U >>,
   a  |-> << VA >>,
@@ -60,7 +64,7 @@ VecProg == [
   ua |-> << U, VA, <<"cross", 0>> >> ]
 
 NonVecProg == [
-  nu   |-> << U, <<"norm", 0>> >>,
+  nu  |-> << U, <<"norm", 0>> >>,
   dua  |-> << U, VA, <<"dot", 0>> >>,
   x    |-> << X >>,
   xdab |-> << X, VA, VB, <<"dot", 0>>, <<"adds", 0>> >> ]
@@ -71,7 +75,10 @@ NonVecProg == [
 ZeroV == VecD(<<0, 0, 0>>, <<0, 0, 0>>)
 IsUTerm(t) == t[2] = << U >>
 
-TermVal(A, t) == Mul(Eval(A, t[1]), Eval(A, t[2]))
+RECURSIVE CoefFrom(_, _, _)
+CoefFrom(A, parts, i) == IF i > Len(parts) THEN IntS(0) ELSE Add(Eval(A, parts[i]), CoefFrom(A, parts, i + 1))
+CoefVal(A, parts) == CoefFrom(A, parts, 1)
+TermVal(A, t) == Mul(CoefVal(A, t[1]), Eval(A, t[2]))
 
 RECURSIVE SumSide(_, _, _, _)
 SumSide(A, ts, side, i) ==
@@ -84,23 +91,25 @@ RhsVal(A, ts) == SumSide(A, ts, "r", 1)
 \* the original expression
 ExprVal(A, ts) == Add(LhsVal(A, ts), Neg(RhsVal(A, ts)))
 
-\* signed coefficient of a term in the original expression
-SignedCoef(A, t) == IF t[3] = "l" THEN Eval(A, t[1]) ELSE Neg(Eval(A, t[1]))
+\* the terms of the unknown after expansion: pairs <<term, monomial>>, with their signed coefficients
 UIdx(ts) == {i \in DOMAIN ts : IsUTerm(ts[i])}
+UParts(ts) == {<<i, j>> \in (DOMAIN ts) \X (1..4) : IsUTerm(ts[i]) /\ j <= Len(ts[i][1])}
+PartCoef(A, ts, ij) == LET t == ts[ij[1]]  v == Eval(A, t[1][ij[2]]) IN IF t[3] = "l" THEN v ELSE Neg(v)
 
 RECURSIVE SumCoefs(_, _, _)
 SumCoefs(A, ts, S) == IF S = {} THEN IntS(0)
-                      ELSE LET i == CHOOSE j \in S : TRUE IN Add(SignedCoef(A, ts[i]), SumCoefs(A, ts, S \ {i}))
+                      ELSE LET ij == CHOOSE q \in S : TRUE IN Add(PartCoef(A, ts, ij), SumCoefs(A, ts, S \ {ij}))
 
-\* the coefficients "of that term": like terms may be collected, so any non-empty group of the unknown's
-\* terms is a term of the expression, with the sum of their coefficients
-Divisors(A, ts) == {k \in {SumCoefs(A, ts, S) : S \in (SUBSET UIdx(ts)) \ {{}}} : ~IsU(k) /\ ~IsZero(k)}
+\* the coefficients "of that term": the expression is a sum of terms after expansion, and like terms may be
+\* collected, so any non-empty group of the unknown's expanded terms is a term of the expression, with the sum
+\* of their coefficients
+Divisors(A, ts) == {k \in {SumCoefs(A, ts, S) : S \in (SUBSET UParts(ts)) \ {{}}} : ~IsU(k) /\ ~IsZero(k)}
 
 \* what must happen: "refuse" (the vector is not a term), "equation", or "open" (the unknown's terms cancel:
 \* the statement does not say whether the vector still occurs)
 Expect(A, ts) ==
   IF UIdx(ts) = {} THEN "refuse"
-  ELSE LET tot == SumCoefs(A, ts, UIdx(ts)) IN
+  ELSE LET tot == SumCoefs(A, ts, UParts(ts)) IN
        IF IsU(tot) \/ IsZero(tot) \/ IsU(ExprVal(A, ts)) THEN "open" ELSE "equation"
 
 \* allowed values of (lhs - rhs) of the returned equation, from the original expression e and the divisors ks
@@ -124,11 +133,13 @@ ApplyFn(A, fn, v) ==
     [] fn = "norm"   -> NormV(v)
     [] fn = "crossb" -> Cross(v, LeafVec(A, 3))
 
+\* the library writes the zero vector as the number 0
+SameVal(p, q) == ValOf(p) = ValOf(q) \/ (IsZero(p) /\ IsZero(q))
 ApplyVerdict(A, ts, fn, l, r) ==
   LET el == ApplyFn(A, fn, LhsVal(A, ts))
       er == ApplyFn(A, fn, RhsVal(A, ts)) IN
   IF IsU(el) \/ IsU(er) \/ IsU(l) \/ IsU(r) THEN "un"
-  ELSE IF ValOf(l) = ValOf(el) /\ ValOf(r) = ValOf(er) THEN "ok" ELSE "bad"
+  ELSE IF SameVal(l, el) /\ SameVal(r, er) THEN "ok" ELSE "bad"
 
 \* scalar equation k2 x^2 + k1 x + k0 = 0 and a proposed solution s
 Residual(A, ks, s) ==
@@ -190,7 +201,7 @@ SideOf(form, i) == CASE form \in {"expr", "eqL"} -> "l"
                      [] form = "eqU" -> (IF KindIsU(i) THEN "l" ELSE "r")
                      [] form = "eqO" -> (IF KindIsU(i) THEN "r" ELSE "l")
 TermsAs(form) == [j \in DOMAIN terms |->
-                    <<CoefProg[TermKinds[terms[j]][1]], VecProg[TermKinds[terms[j]][2]], SideOf(form, terms[j])>>]
+                    <<CoefParts(TermKinds[terms[j]][1]), VecProg[TermKinds[terms[j]][2]], SideOf(form, terms[j])>>]
 Ts == TermsAs(fin.form)
 ScalProgs == <<CoefProg[terms[1]], CoefProg[terms[2]], CoefProg[terms[3]]>>
 
@@ -201,7 +212,8 @@ Def(v) == ~IsU(v)
 VecDone == mode = "vec" /\ fin.done
 
 \* moving a term to the other side of Eq with its coefficient negated does not change the equation
-Moved(ts, j) == [ts EXCEPT ![j] = <<Append(ts[j][1], <<"neg", 0>>), ts[j][2], IF ts[j][3] = "l" THEN "r" ELSE "l">>]
+Moved(ts, j) == [ts EXCEPT ![j] = <<[q \in DOMAIN ts[j][1] |-> Append(ts[j][1][q], <<"neg", 0>>)], ts[j][2],
+                                    IF ts[j][3] = "l" THEN "r" ELSE "l">>]
 MoveNegates == (VecDone /\ fin.op = "solve" /\ fin.reduce) => \A i \in 1..NA :
   LET ts == Ts  e == ExprVal(Assigns[i], ts) IN
   \A j \in DOMAIN ts : LET em == ExprVal(Assigns[i], Moved(ts, j)) IN (Def(e) /\ Def(em)) => e = em
@@ -226,8 +238,7 @@ OnlyInOneTerm == /\ Cardinality(UIdx(Ts)) = 1
 Solution == (VecDone /\ fin.op = "solve" /\ fin.reduce /\ OnlyInOneTerm) => \A i \in 1..NA :
   LET A == Assigns[i]
       e == ExprVal(A, Ts)
-      j == CHOOSE j \in UIdx(Ts) : TRUE
-      k == SignedCoef(A, Ts[j])
+      k == SumCoefs(A, Ts, UParts(Ts))
       rest == Add(e, Neg(Mul(k, LeafVec(A, 1))))              \* E - k u
       sol == Neg(Mul(Inv(k), rest))                           \* the right-hand side
   IN  (Def(sol) /\ Def(rest)) =>
